@@ -253,8 +253,18 @@ def replay_gen(rep):
     from cryptoparser.tls.subprotocol import TlsHandshakeClientHello
     import os
     import time
-    cases = gen_cases(rep)
+    allcases = gen_cases(rep)
+    cases = [c for c in allcases if not c.get('sweep')]
     skipped = 0
+    # extension types the library knows by number but has no class for (heartbeat, max_fragment_length, pre_shared_key, ...)
+    from cryptodatahub.tls.algorithm import TlsExtensionType
+    from cryptoparser.tls.extension import TlsExtensionVariantClient
+    table = TlsExtensionVariantClient._get_variants()                                                   # pylint: disable=protected-access
+    classless = {t.value.code for t, alternatives in table.items() if all('Unparsed' in c.__name__ for c in alternatives)}
+    classless |= {t.value.code for t in TlsExtensionType} - {t.value.code for t in table}
+    sweep = [c for c in allcases if c.get('sweep') and c['abs']['extensions'][0]['type'] in classless]
+    rep.extra['classless_extension_types_replayed'] = sorted(c['abs']['extensions'][0]['type'] for c in sweep)
+    cases = cases + sweep
     # the layout must not depend on the configuration of the machine: a sample of the domain is replayed under other TZ settings
     saved = os.environ.get('TZ')
     plan = [('UTC', cases)] + [(tz, rep.rng.sample(cases, 300)) for tz in ('JST-9', 'America/New_York', 'Australia/Lord_Howe')]
